@@ -200,14 +200,14 @@ PROPS['C18'] = {
 }
 
 PROPS['C21'] = {
-    'units': ['reader', 'loader'],
+    'units': ['reader', 'loader', 'loadkb'],
     'functions': ['rule_reader.rs::strip_comments', 'rule_reader.rs::separate_rules', 'rule_reader.rs::check_last_char',
                   'rule_reader.rs::is_decimal_point', 'rule_reader.rs::trim_error_line', 'rule_reader.rs::read_facts_and_rules', 'rule_reader.rs::unmatched_bracket'],
     'oracles': {'*': 'c21_load'},
     'not_covered': [
         'read_facts_and_rules is under proof (unit loader; rule R14 writes `for line in lines` as loop / next()): the text handed to separate_rules is the kept lines of the file in order, separated by white space, or the file is rejected; '
         'RELATIVE TO the assumed specification of io::Lines::next / line_reader (the lines of the named file, in order; T3) and to `stripped`, defined as what the pure function strip_comments returns',
-        'load_kb_from_file (parse_rule on each returned string, add_rules!) is not under contract: that each segment parses to the rule its text denotes is string-level (C19: bounded round trip; C20: known findings)',
+        'load_kb_from_file is under proof since 8.43 (unit loadkb): the knowledge base gets the rules of the file - the texts read_facts_and_rules returns - parsed one by one with the rule parser and added in order (#loaded_rule_by_rule), or the file is rejected with an error: it cannot be read, or a rule does not parse and the rules before it have been added (#rejected_with_an_error). read_facts_and_rules, parse_rule and add_rules are functions of their arguments there (T10); what each rule text denotes is parse_rule (C18, C19: bounded round trip; C20: known findings)',
         'parse_rule itself (string parsing; see C18 for its panic-freedom)',
         "str::trim is specified only as 'a contiguous sub-sequence' (T3)",
     ],
@@ -413,6 +413,6 @@ TRUSTED_TEXT = {
     'T4': 'extractor rewrite rules R1-R17 (syntactic; counts per rule reported in coverage.rewrites)',
     'T5': 'Verus 0.2026.09.13 + its Z3; rustc front end',
     'T9': 'the id counter LOGIC_VAR_ID (static mut, outside Verus) as ghost state `ids` passed along by the functions that touch it (spec/counter_state.rs): changed only by next_id (+1, returns the new value), set_var_id, clear_id / start_query',
-    'T10': 'functions of their arguments (no global state, no interior mutability), assumed where they are callees through uninterpreted spec functions - C01 (unit solver_sld): unify (unify_res), the ten built-in predicates (bip_res), get_rule up to the id counter (variant); C20: parse_term, make_term, check_arithmetic_infix and get_left_and_right are FUNCTIONS of their arguments (no global state, no interior mutability): assumed where they are callees, through uninterpreted spec functions alone / mk / arith_infix / operands (spec/contexts.rs)',
+    'T10': 'functions of their arguments (no global state, no interior mutability), assumed where they are callees through uninterpreted spec functions - C21 (unit loadkb): read_facts_and_rules (of the file system), parse_rule, add_rules; C01 (unit solver_sld): unify (unify_res), the ten built-in predicates (bip_res), get_rule up to the id counter (variant); C20: parse_term, make_term, check_arithmetic_infix and get_left_and_right are FUNCTIONS of their arguments (no global state, no interior mutability): assumed where they are callees, through uninterpreted spec functions alone / mk / arith_infix / operands (spec/contexts.rs)',
     'T8': 'the node heap (spec/solver.rs): Rc<RefCell<SolutionNode>> accesses as accessor calls on one ghost heap passed along (R15); Rc::clone keeps identity; a field access through a RefMut touches that field of that node only; R17: in set_no_backtracking `self` is the node whose RefMut the caller holds, `as_ptr()` a handle on the node pointed to, `(*raw).F` an access to field F of that node (no lock asked: unsafe)',
 }
